@@ -336,7 +336,7 @@ func c02RunLongReset(co *caseOut, in c02LongResetIn) error {
 		}); n > 0 {
 			viol("not-indistinguishable", fmt.Sprintf("after Reset(%d) the database differs from a node that only synchronised to %d in %d keys (trie garbage aside): %v", target, target, n, ex), len(rb))
 		}
-		c02Try(func() { bc.Close() })
+		// (the node that performed the reset never ran: nothing to close)
 		var recov []c02Recovered
 		if prefixes {
 			cin := c02Input{Cfg: in.Cfg, Blocks: in.Blocks}
